@@ -389,6 +389,35 @@ def run(ctx):
         if len([s_ for s_ in st["samples"] if s_.get("tool") == j["tool"]]) < 1 and j["active"] and 0 < nhidden and len(rows) < 16:
             st["samples"].append({"tool": j["tool"], "ignore_file": j["pats"], "argv": [r["query"]], "rows": rows})
     st["hist"]["docker_contexts_skipped_reinclude_below_ignored_dir"] = skipped_reinclude
+    # ---- the Gallina model of docker.rs / hg.rs (model/Ignore.v): regex TEXT and verdicts against the real filters ----
+    import json as _json
+    import subprocess as _sp
+    import sys as _sys
+    from .common import VERIF, COQ, BUILD
+    idir = os.path.join(VERIF, "tools", "ignorediff")
+    ienv = dict(os.environ, IGNORE_COQ=COQ, IGNORE_SCRATCH=os.path.join(ctx.scratch, "ignorediff"), FSHARNESS=os.path.join(BUILD, "harness", "release", "fsharness"), TZ="UTC")
+    ij = os.path.join(ctx.scratch, "ignorediff.json")
+    ip = _sp.run([_sys.executable, os.path.join(idir, "ignorediff.py"), "--seed", str(ctx.seed), "--files", str(60 if ctx.tier == "quick" else 1500), "--paths", "12", "--json", ij],
+                 stdout=_sp.PIPE, stderr=_sp.STDOUT, env=ienv, timeout=3000)
+    itxt = ip.stdout.decode("utf-8", "replace")
+    if not os.path.exists(ij):
+        ctx.violation("correspondence-mismatch", "the ignore model/implementation comparison did not run: %s" % itxt[-400:], input={}, concrete=False,
+                      correspondence="search_upstream_* / matches_*_filter (harness) vs model.Ignore")
+    else:
+        ires = _json.load(open(ij))
+        for tool_, c_ in ires["per_tool"].items():
+            st["evaluations"] += c_["verdicts"]
+            st["hist"]["%s_model_filters_text_equal" % tool_] = c_["filters"] - c_["filter_text_diff"]
+            st["hist"]["%s_model_verdicts" % tool_] = c_["verdicts"]
+            if c_["filter_text_diff"] or c_["model_vs_real"] or c_["spec_vs_model"]:
+                ctx.violation("correspondence-mismatch", "%s: model.Ignore differs from the real filters (regex texts differing: %d, verdicts differing: %d, model vs Coq reference: %d): %s"
+                              % (tool_, c_["filter_text_diff"], c_["model_vs_real"], c_["spec_vs_model"], "; ".join(l for l in itxt.splitlines() if l.startswith(("TEXT", "VERDICT", "MODEL")))[:600]),
+                              input={"tool": tool_, "seed": ctx.seed}, concrete=False, correspondence="search_upstream_* / matches_*_filter (harness) vs model.Ignore")
+            elif c_["pyref_vs_real"] or c_["spec_vs_pyref"]:
+                ctx.violation("impl-violates-spec", "%s: the real matches_*_filter differs from the reference rule on %d generated (ignore file, path) pairs: %s"
+                              % (tool_, c_["pyref_vs_real"], "; ".join(l for l in itxt.splitlines() if l.startswith(("PYREF", "SPEC")))[:600]), input={"tool": tool_, "seed": ctx.seed})
+            else:
+                st["agreed"] += c_["verdicts"]
     # recorded finding F53: replay the witness
     from .common import load_known
     for k in load_known():
@@ -407,7 +436,7 @@ def run(ctx):
                 ctx.notes.append("F53: witness no longer fails (rows %s); update KNOWN_FINDINGS.json" % got53)
     ctx.coverage.update(
         evaluations=st["evaluations"], distinct_nontrivial=len(st["distinct"]), traces_validated_against_impl=st["agreed"],
-        rule="docker build contexts and Mercurial repositories (.hg) with ignore files from the same pattern classes (plus `syntax: glob|regexp` sections and unrooted / rooted regular expressions for hg), the ignore file in the root or in an ancestor of it, x option / alias / configuration default / `no...` override / no option / ONLY THE OTHER tool enabled (by configuration or option): rows = entries no ancestor-or-self of which the reference matcher (moby patternmatcher / hgignore(5) semantics, written as a direct recursive matcher) ignores; git repositories (git init) with .gitignore files (root and nested) built from literal names, *.ext, dir/, dir/*.ext, **/name, ? patterns, rooted patterns, comments, blank lines and !negations x root spelled '.', relative (from the parent and from inside the repository), './x', absolute, sub-directory of the repository x option `gitignore` / alias `git` / configuration default / `nogitignore` override / no option x bfs/dfs: rows must be exactly the entries whose ancestors-or-self are not ignored according to `git check-ignore`, and equal model.Walk fed those verdicts. non-trivial = an active option hiding at least one entry",
+        rule="model.Ignore (the converters of docker.rs / hg.rs in Gallina) is compared with the real filters: the regular-expression text of every generated ignore line must be identical and the verdicts on random paths equal, and both equal the Coq reference rule; docker build contexts and Mercurial repositories (.hg) with ignore files from the same pattern classes (plus `syntax: glob|regexp` sections and unrooted / rooted regular expressions for hg), the ignore file in the root or in an ancestor of it, x option / alias / configuration default / `no...` override / no option / ONLY THE OTHER tool enabled (by configuration or option): rows = entries no ancestor-or-self of which the reference matcher (moby patternmatcher / hgignore(5) semantics, written as a direct recursive matcher) ignores; git repositories (git init) with .gitignore files (root and nested) built from literal names, *.ext, dir/, dir/*.ext, **/name, ? patterns, rooted patterns, comments, blank lines and !negations x root spelled '.', relative (from the parent and from inside the repository), './x', absolute, sub-directory of the repository x option `gitignore` / alias `git` / configuration default / `nogitignore` override / no option x bfs/dfs: rows must be exactly the entries whose ancestors-or-self are not ignored according to `git check-ignore`, and equal model.Walk fed those verdicts. non-trivial = an active option hiding at least one entry",
         samples=st["samples"], distribution=dict(st["hist"]),
         not_covered="Docker re-includes an entry below an excluded directory (`dir` + `!dir/keep`); fselect prunes excluded directories (as git does), such contexts are skipped and counted; hg `subinclude:`, `rootglob:`, per-line `glob:`/`re:` prefixes, character classes and `{a,b}` are outside the generated classes")
     return ctx.finish(trusted=["libgit2's matching is not modelled: per-entry verdicts come from `git check-ignore --no-index`; `.git` itself is treated as ignored (libgit2 behaviour)"])
